@@ -217,6 +217,7 @@ def run(ctx):
                               % ((t['func'].get('fn') or '?').rsplit('::', 1)[-1]), where(b, bi),
                               'generator local _%d' % gen_local, 'a call in the proposal loop uses a different generator')
         rep.floor('R4', 'generator arguments in the proposal loop', n_rng, 3, where(b))
+    _zero_temperature_reaches_decision_as_zero(ctx, oa)
     # argument roles
     old_l = oa.arg_local(oa.dec_args['old'])
     kt_l = oa.arg_local(oa.dec_args['kt'])
@@ -232,3 +233,16 @@ def run(ctx):
         rep.check(ok, 'R4', 'temperature-argument-is-the-schedule-variable', where(b, oa.decision_bb),
                   'kt local initialised from self.kt_start', 'the temperature passed to the decision is not the schedule '
                   'variable initialised from kt_start')
+
+
+def _zero_temperature_reaches_decision_as_zero(ctx, oa):
+    """R5: with kt_start = 0 the temperature argument of the decision is +0 on every step (else "never at kT = 0" is void)."""
+    from ..optmodel import build_families
+    from .C05 import zero_stays_zero
+    rep, f = ctx.rep, ctx.facts
+    fams, err, bb = build_families(f)
+    if not rep.check(fams is not None, 'R5', 'anchor:builder', where(bb) if bb else 'optimisation', 'evaluated', err or '',
+                     'anchor-lost' if bb is None else 'undecidable-shape'):
+        return
+    kt_l = oa.arg_local(oa.dec_args['kt'])
+    zero_stays_zero(ctx, oa, fams, bb, kt_l, 'R5', 'R5', key_prefix='kT-argument-at-kt_start=0:')
